@@ -1,18 +1,18 @@
 CONSTANTS
-  Comps <- C_Comps
-  Sources <- C_Sources
-  Waiters <- C_Waiters
-  Kind <- C_Kind
-  Script <- C_Script
-  Handles <- C_Handles
-  DepSets <- C_DepSets
-  HandlerSeqs <- C_HSeqs
-  UpProgs <- C_UpProgs
-  CRProg <- C_CR
+  Comps <- O_Comps
+  Sources <- O_Sources
+  Waiters <- O_Waiters
+  Kind <- O_Kind
+  Script <- O_Script
+  Handles <- O_Handles
+  DepSets <- O_DepSets
+  HandlerSeqs <- O_HSeqs
+  UpProgs <- O_UpProgs
+  CRProg <- O_CR
   Forms = {"fresh"}
   Colls = {}
-  LAs <- NoLA_C
-  DropOn = FALSE
+  LAs <- O_LAs
+  DropOn = TRUE
   QuitOn = FALSE
   QuitDeferred = FALSE
   DefCap = 0
